@@ -1929,4 +1929,214 @@ theorem answer_of_strip {d d' : D} (q : Query) (h : DInv d) (h' : DInv d')
         intro iv
         rw [ht.2, ht'.2, biIvs_of_strip hs]
 
+/-! ### the structural effect of an edit is a function of the structure -/
+
+theorem strip_setBlk_congr {d d' : D} (h : strip d = strip d') (b : Blk) :
+    strip (d.setBlk b) = strip (d'.setBlk b) := by
+  rw [strip_eq_iff] at h ⊢
+  refine ⟨?_, h.2.1, h.2.2⟩
+  show d.blks.map _ = d'.blks.map _
+  rw [h.1]
+
+theorem map_projBI_setBI (d : D) (b : BI) : (d.setBI b).bis.map projBI =
+    (d.bis.map projBI).map (fun t => if t.1 == b.id then projBI b else t) := by
+  show (d.bis.map _).map projBI = _
+  rw [List.map_map, List.map_map]
+  apply List.map_congr_left
+  intro y _
+  simp only [Function.comp]
+  split <;> rfl
+
+theorem strip_setBI_congr {d d' : D} (h : strip d = strip d') {b b' : BI}
+    (hp : projBI b = projBI b') : strip (d.setBI b) = strip (d'.setBI b') := by
+  rw [strip_eq_iff] at h ⊢
+  refine ⟨h.1, ?_, h.2.2⟩
+  have hid : b.id = b'.id := congrArg Prod.fst hp
+  rw [map_projBI_setBI, map_projBI_setBI, h.2.1, hp, hid]
+
+theorem strip_lzUpdBI_congr {d d' : D} (h : strip d = strip d') (x : Nat) (f g : Lazy → Lazy) :
+    strip (lzUpdBI d x f) = strip (lzUpdBI d' x g) := by
+  have hb := bi?_of_strip h x
+  cases h1 : d.bi? x with
+  | none =>
+    cases h2 : d'.bi? x with
+    | none => simp only [lzUpdBI, h1, h2]; exact h
+    | some b' => rw [h1, h2] at hb; simp at hb
+  | some b =>
+    cases h2 : d'.bi? x with
+    | none => rw [h1, h2] at hb; simp at hb
+    | some b' =>
+      rw [h1, h2] at hb
+      simp only [lzUpdBI, h1, h2]
+      apply strip_setBI_congr h
+      have : projBI b = projBI b' := by simpa using hb
+      exact this
+
+theorem strip_optUpdBI_congr {d d' : D} (h : strip d = strip d') (o : Option Nat)
+    (f g : Lazy → Lazy) : strip (optUpdBI d o f) = strip (optUpdBI d' o g) := by
+  cases o with
+  | none => exact h
+  | some x => exact strip_lzUpdBI_congr h x f g
+
+theorem strip_optUpdSec (d : D) (o : Option Nat) (f : Lazy → Lazy) :
+    strip (optUpdSec d o f) = strip d := by
+  cases o with
+  | none => rfl
+  | some x => exact strip_lzUpdSec d x f
+
+theorem blk?_of_strip {d d' : D} (h : strip d = strip d') (b : Nat) : d.blk? b = d'.blk? b := by
+  unfold D.blk?; rw [blks_of_strip h]
+
+theorem applyEdit_strip_congr {d d' : D} (e : Edit) (h : strip d = strip d') :
+    strip (applyEdit d e) = strip (applyEdit d' e) := by
+  cases e with
+  | blkSet b o z =>
+    show strip (blkSet d b o z) = strip (blkSet d' b o z)
+    rw [blkSet_eq, blkSet_eq, blk?_of_strip h]
+    cases d'.blk? b with
+    | none => exact h
+    | some blk =>
+      exact strip_optUpdBI_congr (strip_setBlk_congr (strip_optUpdBI_congr h _ _ _) _) _ _ _
+  | blkMove b dst r =>
+    show strip (blkMove d b dst r) = strip (blkMove d' b dst r)
+    rw [blkMove_eq, blkMove_eq, blk?_of_strip h]
+    cases d'.blk? b with
+    | none => exact h
+    | some blk =>
+      simp only
+      split
+      · exact h
+      · exact strip_optUpdBI_congr (strip_setBlk_congr (strip_optUpdBI_congr h _ _ _) _) _ _ _
+  | biSet x a z =>
+    show strip (biSet d x a z) = strip (biSet d' x a z)
+    rw [biSet_eq, biSet_eq]
+    have hb := bi?_of_strip h x
+    cases h1 : d.bi? x with
+    | none =>
+      cases h2 : d'.bi? x with
+      | none => exact h
+      | some b' => rw [h1, h2] at hb; simp at hb
+    | some b =>
+      cases h2 : d'.bi? x with
+      | none => rw [h1, h2] at hb; simp at hb
+      | some b' =>
+        rw [h1, h2] at hb
+        have hp : projBI b = projBI b' := by simpa using hb
+        simp only [projBI, Prod.mk.injEq] at hp
+        simp only
+        rw [strip_optUpdSec, strip_optUpdSec]
+        apply strip_setBI_congr
+        · rw [strip_optUpdSec, strip_optUpdSec]; exact h
+        · simp only [projBI, hp.1, hp.2.2.2]
+  | biMove x dst r =>
+    show strip (biMove d x dst r) = strip (biMove d' x dst r)
+    rw [biMove_eq, biMove_eq]
+    have hb := bi?_of_strip h x
+    cases h1 : d.bi? x with
+    | none =>
+      cases h2 : d'.bi? x with
+      | none => exact h
+      | some b' => rw [h1, h2] at hb; simp at hb
+    | some b =>
+      cases h2 : d'.bi? x with
+      | none => rw [h1, h2] at hb; simp at hb
+      | some b' =>
+        rw [h1, h2] at hb
+        have hp : projBI b = projBI b' := by simpa using hb
+        simp only [projBI, Prod.mk.injEq] at hp
+        simp only
+        rw [hp.2.2.2]
+        split
+        · exact h
+        · rw [strip_optUpdSec, strip_optUpdSec]
+          apply strip_setBI_congr
+          · rw [strip_optUpdSec, strip_optUpdSec]; exact h
+          · simp only [projBI, hp.1, hp.2.1, hp.2.2.1]
+
+/-! ### histories -/
+
+theorem exec_nil (d : D) : exec d [] = d := rfl
+theorem exec_edit (d : D) (e : Edit) (as : List Act) :
+    exec d (.edit e :: as) = exec (applyEdit d e) as := rfl
+theorem exec_look (d : D) (q : Query) (as : List Act) :
+    exec d (.look q :: as) = exec (runQuery d q).1 as := rfl
+
+/-- running a history = running its edits only, as far as invariant and structure go -/
+theorem exec_spec (as : List Act) : ∀ (d d' : D), DInv d → strip d = strip d' →
+    DInv (exec d as) ∧ strip (exec d as) = strip ((editsOf as).foldl applyEdit d') := by
+  induction as with
+  | nil => intro d d' h hs; exact ⟨h, hs⟩
+  | cons a as ih =>
+    intro d d' h hs
+    cases a with
+    | edit e =>
+      rw [exec_edit]
+      show _ ∧ _ = strip (List.foldl applyEdit (applyEdit d' e) (editsOf as))
+      exact ih _ _ (applyEdit_inv d e h) (applyEdit_strip_congr e hs)
+    | look q =>
+      rw [exec_look]
+      show _ ∧ _ = strip (List.foldl applyEdit d' (editsOf as))
+      have := runQuery_inv_strip h q
+      exact ih _ _ this.1 (this.2.trans hs)
+
+/-! ### initial state and the driver's construction lines -/
+
+theorem dinv_init : DInv ({} : D) where
+  blk_ids := List.nodup_nil
+  bi_ids := List.nodup_nil
+  sec_ids := List.nodup_nil
+  bi_ok := by intro bi hbi; cases hbi
+  sec_ok := by intro sc hsc; cases hsc
+
+theorem lazyOK_empty (cur : List Iv) : LazyOK {} cur := by
+  intro t ht; cases ht
+
+theorem nodup_snoc {l : List Nat} {i : Nat} (h : l.Nodup) (hi : i ∉ l) : (l ++ [i]).Nodup := by
+  rw [List.nodup_append]
+  refine ⟨h, by simp, ?_⟩
+  intro a ha b hb
+  simp at hb; subst hb
+  intro e; subst e; exact hi ha
+
+/-- the driver's `blk` line: a fresh detached block -/
+theorem dinv_add_blk {d : D} (h : DInv d) (i : Nat) (k : Bool) (o z : Nat)
+    (hi : i ∉ d.blks.map (·.id)) :
+    DInv { d with blks := d.blks ++ [⟨i, k, o, z, none⟩] } := by
+  refine ⟨?_, h.bi_ids, h.sec_ids, ?_, h.sec_ok⟩
+  · show (List.map Blk.id (d.blks ++ [_])).Nodup
+    rw [List.map_append]; exact nodup_snoc h.blk_ids hi
+  · intro bi hbi
+    have e : ({ d with blks := d.blks ++ [⟨i, k, o, z, none⟩] } : D).blocksOf bi.id =
+        d.blocksOf bi.id := by
+      simp [D.blocksOf, List.filter_append]
+    rw [e]; exact h.bi_ok bi hbi
+
+/-- the driver's `bi` line: a fresh detached byte interval -/
+theorem dinv_add_bi {d : D} (h : DInv d) (i : Nat) (a : Option Nat) (z : Nat)
+    (hi : i ∉ d.bis.map (·.id)) :
+    DInv { d with bis := d.bis ++ [{ id := i, addr := a, size := z, sec := none }] } := by
+  refine ⟨h.blk_ids, ?_, h.sec_ids, ?_, ?_⟩
+  · show (List.map BI.id (d.bis ++ [_])).Nodup
+    rw [List.map_append]; exact nodup_snoc h.bi_ids hi
+  · intro bi hbi
+    rcases List.mem_append.1 hbi with hm | hm
+    · exact h.bi_ok bi hm
+    · simp at hm; subst hm; exact lazyOK_empty _
+  · intro sc hsc
+    have e : ({ d with bis := d.bis ++ [{ id := i, addr := a, size := z, sec := none }] } : D).bisOf
+        sc.id = d.bisOf sc.id := by
+      simp [D.bisOf, List.filter_append]
+    rw [e]; exact h.sec_ok sc hsc
+
+/-- the driver's `sec` line: a fresh section -/
+theorem dinv_add_sec {d : D} (h : DInv d) (i : Nat) (hi : i ∉ d.secs.map (·.id)) :
+    DInv { d with secs := d.secs ++ [{ id := i }] } := by
+  refine ⟨h.blk_ids, h.bi_ids, ?_, h.bi_ok, ?_⟩
+  · show (List.map Sec.id (d.secs ++ [_])).Nodup
+    rw [List.map_append]; exact nodup_snoc h.sec_ids hi
+  · intro sc hsc
+    rcases List.mem_append.1 hsc with hm | hm
+    · exact h.sec_ok sc hm
+    · simp at hm; subst hm; exact lazyOK_empty _
+
 end Gtirb.Index
